@@ -588,12 +588,14 @@ fn run_dec(pol: Pol, idem: bool, steps: &str, ctx: &mut Ctx) -> String {
 fn run_exec(pol: Option<Pol>, idem: bool, clplan: &str, outs: &str, ctx: &mut Ctx) -> String {
     let Some((c, pl)) = clplan.split_once('/') else { return "bad-case".to_owned() };
     let Some(cl0) = parse_cl(c) else { return "bad-case".to_owned() };
-    let mut plan: Vec<bool> = Vec::new();
+    // per target: how many `get_connection()` calls succeed (`0` never, `1` always, digit d >= 2: the first d-1)
+    let mut plan: Vec<usize> = Vec::new();
     if pl != "-" {
         for ch in pl.chars() {
             match ch {
-                '1' => plan.push(true),
-                '0' => plan.push(false),
+                '1' => plan.push(usize::MAX),
+                '0' => plan.push(0),
+                '2'..='9' => plan.push(ch as usize - '1' as usize),
                 _ => return "bad-case".to_owned(),
             }
         }
@@ -650,7 +652,7 @@ fn run_exec(pol: Option<Pol>, idem: bool, clplan: &str, outs: &str, ctx: &mut Ct
             };
             async move { res }
         };
-        env.rt.block_on(hooks::run_request(params, &env.conn, plan.clone(), run_once))
+        env.rt.block_on(hooks::run_request_calls(params, &env.conn, plan.clone(), run_once))
     });
 
     let attempts = log.into_inner();
@@ -701,12 +703,15 @@ fn run_exec(pol: Option<Pol>, idem: bool, clplan: &str, outs: &str, ctx: &mut Ct
         ctx.fail(format!("{} attempts sent but the policy decided only {} retries", n, retries));
     }
     if n >= 1 && n < 1 + retries {
-        // fewer attempts than decided: only legitimate when the plan ran out after a RetryNextTarget
+        // fewer attempts than decided: only legitimate when the plan ran out after a RetryNextTarget, or after a
+        // RetrySameTarget on a target whose pool gave no connection any more
         let last = attempts[n - 1].0;
-        let ran_out = matches!(decisions.last(), Some(Dec::Next(_)))
+        let on_last = attempts.iter().filter(|(t, _)| *t == last).count();
+        let ran_out = (matches!(decisions.last(), Some(Dec::Next(_)))
+            || (matches!(decisions.last(), Some(Dec::Same(_))) && on_last >= plan[last]))
             && retries == n
             && result.is_err()
-            && plan.iter().skip(last + 1).all(|ok| !*ok);
+            && plan.iter().skip(last + 1).all(|ok| *ok == 0);
         if !ran_out {
             ctx.fail(format!("policy decided {} retries but only {} attempts were sent although the plan had not run out", retries, n));
         }
@@ -728,9 +733,14 @@ fn run_exec(pol: Option<Pol>, idem: bool, clplan: &str, outs: &str, ctx: &mut Ct
             if c1 != d.new_cl().unwrap_or(c0) {
                 ctx.fail(format!("attempt {} sent at {} but the policy decided {} after an attempt at {}", i + 1, cl_name(c1), d.name(), cl_name(c0)));
             }
+            // successful get_connection calls made on t0 so far = attempts on t0 so far
+            let used = attempts[..=i].iter().filter(|(t, _)| *t == t0).count();
+            let pool_dry = used >= plan[t0];
             match d {
-                Dec::Same(_) if t1 != t0 => ctx.fail(format!("RetrySameTarget after attempt {} on target {}, but attempt {} went to target {}", i, t0, i + 1, t1)),
-                Dec::Next(_) if t1 <= t0 || plan[t0 + 1..t1].iter().any(|ok| *ok) => ctx.fail(format!(
+                Dec::Same(_) if !pool_dry && t1 != t0 => ctx.fail(format!("RetrySameTarget after attempt {} on target {}, but attempt {} went to target {}", i, t0, i + 1, t1)),
+                Dec::Same(_) if pool_dry && (t1 <= t0 || plan[t0 + 1..t1].iter().any(|ok| *ok > 0)) => ctx.fail(format!(
+                    "RetrySameTarget after attempt {} on target {} whose pool gives no connection any more, but attempt {} went to target {}", i, t0, i + 1, t1)),
+                Dec::Next(_) if t1 <= t0 || plan[t0 + 1..t1].iter().any(|ok| *ok > 0) => ctx.fail(format!(
                     "RetryNextTarget after attempt {} on target {}, but attempt {} went to target {}", i, t0, i + 1, t1)),
                 Dec::Dont | Dec::Ignore | Dec::Unknown => ctx.fail(format!("attempt {} sent after decision {}", i + 1, d.name())),
                 _ => {}
@@ -738,13 +748,18 @@ fn run_exec(pol: Option<Pol>, idem: bool, clplan: &str, outs: &str, ctx: &mut Ct
         }
     }
     if n >= 1 {
-        let first = plan.iter().position(|ok| *ok);
+        let first = plan.iter().position(|ok| *ok > 0);
         if attempts[0].1 != cl0 || Some(attempts[0].0) != first {
             ctx.fail(format!("first attempt on target {} at {}, expected first connectable target {:?} at {}", attempts[0].0, cl_name(attempts[0].1), first, cl_name(cl0)));
         }
     }
-    if attempts.iter().any(|(t, _)| *t >= plan.len() || !plan[*t]) {
-        ctx.fail("attempt on a target without a connection".to_owned());
+    for t in 0..plan.len() {
+        if attempts.iter().filter(|(x, _)| *x == t).count() > plan[t] {
+            ctx.fail(format!("more attempts on target {} than its pool gave connections", t));
+        }
+    }
+    if attempts.iter().any(|(t, _)| *t >= plan.len()) {
+        ctx.fail("attempt on a target outside the plan".to_owned());
     }
     if recd.sessions > 1 || (recd.sessions == 0) != decisions.is_empty() {
         ctx.fail(format!("{} retry sessions created for one request with {} decisions", recd.sessions, decisions.len()));
@@ -899,6 +914,13 @@ const ALPHABET: [&str; 17] = [
     "db.server",
 ];
 
+/// Turns some always-connectable targets into targets whose pool dries up after 1..3 `get_connection()` calls.
+fn flaky(rng: &mut Rng, plan: String) -> String {
+    plan.chars()
+        .map(|c| if c == '1' && rng.chance(1, 4) { *rng.pick(&['2', '2', '3', '4']) } else { c })
+        .collect()
+}
+
 fn plan_str(plan: &[bool]) -> String {
     if plan.is_empty() { "-".to_owned() } else { plan.iter().map(|b| if *b { '1' } else { '0' }).collect() }
 }
@@ -1031,6 +1053,37 @@ pub fn generate(rng: &mut Rng, tier: Tier, emit: &mut dyn FnMut(String)) {
             }
         }
     }
+    // directed: targets whose pool dries up between two same-target attempts (get_connection is called again
+    // before every attempt): every plan of length <= 3 over {0, 1, 2, 3} x orders of the same-node-retry errors
+    let digits = ['0', '1', '2', '3'];
+    let mut fplans: Vec<String> = Vec::new();
+    for a in digits {
+        fplans.push(a.to_string());
+        for b in digits {
+            fplans.push(format!("{}{}", a, b));
+            for c in digits {
+                fplans.push(format!("{}{}{}", a, b, c));
+            }
+        }
+    }
+    fplans.retain(|p| p.contains('2') || p.contains('3'));
+    for plan in &fplans {
+        for pol in [Pol::Default, Pol::Downgrading] {
+            for idem in ["i", "n"] {
+                for a in setters {
+                    for b in setters {
+                        emit(format!("run {}/{} quorum/{} {};{};{};db.bootstrapping;{}", pol.name(), idem, plan, a, b, a, b));
+                    }
+                }
+            }
+        }
+        for d0 in ["same", "same:one", "next"] {
+            for d1 in ["same", "next:two", "dont", "ignore"] {
+                emit(format!("runx fallthrough/i quorum/{} broken~{};broken~{};broken~same;broken~same;ok", plan, d0, d1));
+            }
+        }
+    }
+
     // (c) the loop under a scripted test policy: every decision arm with every consistency (the built-in policies
     //     never return RetryNextTarget(Some(_)), IgnoreWriteError only in one cell, ...)
     let dec_alpha = ["dont", "ignore", "same", "next", "same:one", "next:two", "next:serial", "same:eachquorum"];
@@ -1069,11 +1122,13 @@ pub fn generate(rng: &mut Rng, tier: Tier, emit: &mut dyn FnMut(String)) {
                 }
             })
             .collect();
+        let ps = plan_str(&plan);
+        let ps = if rng.bool() { flaky(rng, ps) } else { ps };
         emit(format!(
             "runx fallthrough/{} {}/{} {}",
             if rng.bool() { "i" } else { "n" },
             rng.pick(&CLS).0,
-            plan_str(&plan),
+            ps,
             list_or_dash(outs, ";")
         ));
     }
@@ -1116,12 +1171,14 @@ pub fn generate(rng: &mut Rng, tier: Tier, emit: &mut dyn FnMut(String)) {
                 }
             })
             .collect();
+        let ps = plan_str(&plan);
+        let ps = if rng.chance(1, 3) { flaky(rng, ps) } else { ps };
         emit(format!(
             "run {}/{} {}/{} {}",
             pol.name(),
             if idem { "i" } else { "n" },
             cl0,
-            plan_str(&plan),
+            ps,
             list_or_dash(outs, ";")
         ));
     }
